@@ -337,7 +337,13 @@ def stepLine (d : DState) (line : String) : DState × String :=
         -- CompactSwamp: refuses a swamp that does not exist, otherwise summons it and rewrites its
         -- file; no record, stamp or pending write changes
         if d.s.dead then (d, "skip")
-        else if Model.exists_ d.s then ({ d with s := Model.withLive d.s (Model.summon d.s) }, "compact ok")
+        else if Model.exists_ d.s then
+          -- a swamp that "exists" without holding a record (left behind by another mechanism) is a
+          -- deviation from the documented answer: reported under the mechanism that created it
+          let ghost := (Model.abs d.s).isEmpty
+          let tag := match d.lastTag with | some t => tagId t | none => "unattributed"
+          let flag := if !ghost then "" else if d.pol == .c06 then "\t#F:" ++ d.pid ++ "-" ++ tag else "\t#D:" ++ tag
+          ({ d with s := Model.withLive d.s (Model.summon d.s) }, "compact ok" ++ flag)
         else (d, "err:FailedPrecondition")
       else stepReq d f
     | _ => stepReq d f
